@@ -232,6 +232,7 @@ class Check(object):
         self.assumptions = []
         self.findings = load_findings()
         self.machinery_errors = []
+        self.soft_errors = []       # machinery errors that do not put real violations in doubt (total replay drift)
         self.drift = 0
         self.replayed = 0
         self.witnesses = {}
@@ -438,7 +439,7 @@ class Check(object):
         if len(pairs) >= 20 and ndrift == len(pairs):
             # EVERY behaviour of the batch differs from the code's history: the binding itself is broken (a projection
             # that lost an event, a model that gained one): not a verdict about the code, and not to be overlooked
-            self.machinery_errors.append("spec -> code replay: all %d behaviours of a batch drift (%s), e.g. %s" % (
+            self.soft_errors.append("spec -> code replay: all %d behaviours of a batch drift (%s), e.g. %s" % (
                 len(pairs), trace_module, json.dumps(drifts[0])[:600]))
         return pairs
 
@@ -493,11 +494,14 @@ class Check(object):
         for k, n in sorted(self.known_seen.items()):
             f = [x for x in self.findings if x["id"] == k][0]
             print("KNOWN-FINDING: property=%s %s (%s; seen %d times)" % (self.prop, f["what"], k, n))
-        if self.machinery_errors:
-            for m in self.machinery_errors[:5]:
+        if self.machinery_errors or (self.soft_errors and not self.violations):
+            for m in (self.machinery_errors + self.soft_errors)[:5]:
                 print("MACHINERY-ERROR: " + m)
             return 2
         if self.violations:
+            for m in self.soft_errors[:2]:
+                # (the code no longer follows the model at all; the violations below are verdicts on real executions)
+                print("NOTE: " + m[:300])
             seen = set()
             for v in self.violations:
                 if v["clause"] in seen:
